@@ -368,7 +368,7 @@ fn part_tamper(ctx: &Ctx, sel: &ChildSel, glob: &Mutex<Stats>) {
     let single = (TAMPER_GEOS.len() * 2 * 3 * TAMPER_OPS) as u64;
     let work = |idx: u64, st: &mut Stats| {
         let u8s = if idx < single { (idx as usize / (TAMPER_OPS * 3)) % 2 == 0 } else { idx % 2 == 0 };
-        let case = || J::obj().set("kind", "tamper").set("index", idx);
+        let case = || J::obj().set("kind", "tamper").set("index", idx).set("seed", ctx.seed);
         run_case("C07", "tamper", &|| format!("tamper #{idx}"), &case, st, |st| {
             if u8s {
                 tamper_case::<u8>(ctx, idx, sel, st)
@@ -538,7 +538,7 @@ fn walk_case(ctx: &Ctx, idx: u64, sel: &ChildSel, maxdim: u64, st: &mut Stats) {
 fn part_walks(ctx: &Ctx, sel: &ChildSel, glob: &Mutex<Stats>, n_override: Option<u64>) {
     let n = n_override.unwrap_or(if ctx.flag("lite") { 2000 } else { ctx.pick(200_000, 4_000_000) });
     let work = |idx: u64, st: &mut Stats| {
-        let case = || J::obj().set("kind", "walk").set("index", idx);
+        let case = || J::obj().set("kind", "walk").set("index", idx).set("seed", ctx.seed).set("maxdim", 12);
         run_case("C07", "walks", &|| format!("walk #{idx}"), &case, st, |st| walk_case(ctx, idx, sel, 12, st));
     };
     drive(sel, n, glob, work);
@@ -611,7 +611,7 @@ fn part_floats(ctx: &Ctx, sel: &ChildSel, glob: &Mutex<Stats>, n_override: Optio
     let (chunks, npx) = n_override.unwrap_or(if ctx.flag("lite") { (4, 512) } else if sel.child { (ctx.pick(16, 256), 4096) } else { (ctx.pick(64, 4096), 16_384) });
     let n = chunks * FLOAT_STAGES;
     let work = |idx: u64, st: &mut Stats| {
-        let case = || J::obj().set("kind", "floats").set("index", idx).set("npx", npx);
+        let case = || J::obj().set("kind", "floats").set("index", idx).set("npx", npx).set("seed", ctx.seed);
         run_case("C07", "floats", &|| format!("floats #{idx}"), &case, st, |st| float_case(ctx, idx, sel, npx, st));
     };
     drive(sel, n, glob, work);
@@ -808,7 +808,7 @@ fn part_miri(ctx: &Ctx, sel: &ChildSel, glob: &Mutex<Stats>) {
             MiriCase::Tamper(t) => {
                 sel.announce(idx, &format!("tamper #{t}"));
                 let u8s = (*t as usize / (TAMPER_OPS * 3)) % 2 == 0;
-                let case = || J::obj().set("kind", "tamper").set("index", *t);
+                let case = || J::obj().set("kind", "tamper").set("index", *t).set("seed", ctx.seed);
                 run_case("C07", "tamper", &|| format!("tamper #{t}"), &case, &mut st, |st| {
                     if u8s {
                         tamper_case::<u8>(ctx, *t, &quiet, st)
@@ -819,12 +819,12 @@ fn part_miri(ctx: &Ctx, sel: &ChildSel, glob: &Mutex<Stats>) {
             }
             MiriCase::Walk(wi) => {
                 sel.announce(idx, &format!("walk #{wi} (dims <= 4)"));
-                let case = || J::obj().set("kind", "walk").set("index", *wi).set("maxdim", 4);
+                let case = || J::obj().set("kind", "walk").set("index", *wi).set("maxdim", 4).set("seed", ctx.seed);
                 run_case("C07", "walks", &|| format!("walk #{wi}"), &case, &mut st, |st| walk_case(ctx, *wi, &quiet, 4, st));
             }
             MiriCase::Floats(fi) => {
                 sel.announce(idx, &format!("floats #{fi}"));
-                let case = || J::obj().set("kind", "floats").set("index", *fi).set("npx", npx);
+                let case = || J::obj().set("kind", "floats").set("index", *fi).set("npx", npx).set("seed", ctx.seed);
                 run_case("C07", "floats", &|| format!("floats #{fi}"), &case, &mut st, |st| float_case(ctx, *fi, &quiet, npx, st));
             }
             MiriCase::Overflow => {
@@ -891,7 +891,7 @@ fn c13_case(ctx: &Ctx, ci: u64, cfgt: (TC, CP, MC, bool, u8), st: &mut Stats) ->
     let cfg = cfg_full(m, t, p, full, n, ss);
     let (w, h) = (8usize, if ctx.flag("lite") { 4 } else { ctx.pick(24, 128) });
     let px = hostile_image(&mut rng, w * h, st);
-    let cj = J::obj().set("kind", "c13").set("config_index", ci).set("cfg", cfg_json(&cfg));
+    let cj = J::obj().set("kind", "c13").set("config_index", ci).set("cfg", cfg_json(&cfg)).set("seed", ctx.seed).set("tier", if ctx.tier == Tier::Quick { "quick" } else { "thorough" }).set("lite", ctx.flag("lite"));
     let mut conv = 0u64;
     let mut samples = 0u64;
     let lin = LinearRgb::new(px.clone(), w, h).unwrap();
@@ -1002,13 +1002,13 @@ pub fn c13(ctx: &Ctx) {
                 ev::violation(
                     format!("C13|panic|{}", ev::panic_site(&msg)),
                     format!("a conversion panicked for supported config {cfgt:?}: {msg}"),
-                    J::obj().set("kind", "c13").set("config_index", ci).set("cfg", cfg_json(&cfg_full(m, t, p, full, n, (0, 0)))).set("panic", msg),
+                    J::obj().set("kind", "c13").set("config_index", ci).set("cfg", cfg_json(&cfg_full(m, t, p, full, n, (0, 0)))).set("panic", msg).set("seed", ctx.seed).set("tier", if ctx.tier == Tier::Quick { "quick" } else { "thorough" }).set("lite", ctx.flag("lite")),
                 );
             }
         }
         if vh::thread_violations() > before {
             let site = vh::thread_last_violation().map_or("unknown", |v| vh::SITE_NAMES[v.site]);
-            ev::violation(format!("C13|hook|{site}"), format!("unsafe precondition false at {site} for config {cfgt:?}"), J::obj().set("kind", "c13").set("config_index", ci));
+            ev::violation(format!("C13|hook|{site}"), format!("unsafe precondition false at {site} for config {cfgt:?}"), J::obj().set("kind", "c13").set("config_index", ci).set("seed", ctx.seed).set("tier", if ctx.tier == Tier::Quick { "quick" } else { "thorough" }).set("lite", ctx.flag("lite")));
         }
     };
     if sel.child {
@@ -1062,9 +1062,50 @@ pub fn replay(mon: &str, case: &J) -> bool {
     let kind = case.get("kind").and_then(J::as_str).unwrap_or("");
     let sel = ChildSel { child: false, shard: 0, nshards: 1, from: 0 };
     // the context of the original run matters only through the seed, which the driver passes again
-    let _ctx = Ctx { monitor: mon.to_string(), tier: Tier::Quick, seed: case.get("seed").and_then(J::as_u64).unwrap_or(0), build: String::new(), out: None, args: Default::default() };
+    let mut args: std::collections::HashMap<String, String> = Default::default();
+    if case.get("lite").and_then(J::as_bool) == Some(true) {
+        args.insert("lite".into(), "1".into());
+    }
+    let tier = if case.get("tier").and_then(J::as_str) == Some("thorough") { Tier::Thorough } else { Tier::Quick };
+    let ctx = Ctx { monitor: mon.to_string(), tier, seed: case.get("seed").and_then(J::as_u64).unwrap_or(0), build: String::new(), out: None, args };
     let mut st = Stats::default();
+    let idx = case.get("index").and_then(J::as_u64);
     match kind {
+        "tamper" | "walk" | "floats" => {
+            let Some(idx) = idx else { return false };
+            let c2 = case.clone();
+            run_case("C07", kind, &|| format!("{kind} #{idx}"), &|| c2.clone(), &mut st, |st| match kind {
+                "tamper" => {
+                    let single = (TAMPER_GEOS.len() * 2 * 3 * TAMPER_OPS) as u64;
+                    let u8s = if idx < single { (idx as usize / (TAMPER_OPS * 3)) % 2 == 0 } else { idx % 2 == 0 };
+                    if u8s {
+                        tamper_case::<u8>(&ctx, idx, &sel, st)
+                    } else {
+                        tamper_case::<u16>(&ctx, idx, &sel, st)
+                    }
+                }
+                "walk" => walk_case(&ctx, idx, &sel, case.get("maxdim").and_then(J::as_u64).unwrap_or(12), st),
+                _ => float_case(&ctx, idx, &sel, case.get("npx").and_then(J::as_u64).unwrap_or(64) as usize, st),
+            });
+            ev::add_evals(1);
+            ev::observe("replay", J::obj().set("hook_violations", st.hook_violations).set("safe_panics", st.safe_panics).set("conversions", st.conversions));
+            true
+        }
+        "c13" => {
+            let Some(ci) = case.get("config_index").and_then(J::as_u64) else { return false };
+            let cfgs = c13_configs();
+            let Some(cfgt) = cfgs.get(ci as usize).copied() else { return false };
+            let before = vh::thread_violations();
+            let r = ev::guarded(|| c13_case(&ctx, ci, cfgt, &mut st));
+            ev::add_evals(1);
+            if let Err(msg) = r {
+                ev::violation(format!("C13|panic|{}", ev::panic_site(&msg)), msg, case.clone());
+            }
+            if vh::thread_violations() > before {
+                ev::violation("C13|hook|replay", "unsafe precondition false", case.clone());
+            }
+            true
+        }
         "frame" => {
             let Some(s) = FrameSpec::from_json(case) else { return false };
             let mut rng = Rng::new(1, 1);
